@@ -519,7 +519,7 @@ type rdCase struct {
 }
 
 // runReader drives the reader over the case's stream; closer is told when the session gets closed.
-func runReader(c rdCase, newConn func(st *memStream) (*webtrans.Conn, func() bool)) (ops []rdOp, pan string, closed bool) {
+func runReader(c rdCase, newConn func(st *memStream) (*webtrans.Conn, func() bool)) (ops []rdOp, pan string, closed bool, streamRead int) {
 	r := rand.New(rand.NewSource(c.Seed))
 	fr := &fragReader{data: c.Stream, errAt: c.ErrAt, err: errInjected}
 	switch c.Frag {
@@ -550,6 +550,7 @@ func runReader(c rdCase, newConn func(st *memStream) (*webtrans.Conn, func() boo
 			pan = fmt.Sprint(rr)
 		}
 		closed = isClosed()
+		streamRead = fr.pos
 	}()
 	fi := -1
 	consumed := 0
@@ -729,6 +730,11 @@ func rdCases(seed int64, nRandom int) []rdCase {
 			add(fmt.Sprintf("lim%d_%d", i, d+1), s, lim, -1, pats[(i+d+1)%2], frags[(i+d+1)%3])
 		}
 	}
+	// a frame far above the limit whose payload is all there: the reader must give up after the header, not drain it
+	for i, n := range []int{70000, 1 << 20} {
+		s := append(hdrBytes(true, 64, uint64(n)), wtPayload(int64(i), n)...)
+		add(fmt.Sprintf("biglim%d", i), s, 1000, -1, "message", "rand")
+	}
 	// random and mutated bytes
 	for i := 0; i < nRandom; i++ {
 		n := r.Intn(60)
@@ -767,23 +773,28 @@ func wtrScenarios(seed int64, nRandom int) []Scenario {
 			var ops []rdOp
 			var pan string
 			var closed bool
+			var consumed int
 			withSession := c.Limit > 0
 			if withSession {
 				h3 := newFakeH3()
-				ops, pan, closed = runReader(c, func(st *memStream) (*webtrans.Conn, func() bool) {
+				ops, pan, closed, consumed = runReader(c, func(st *memStream) (*webtrans.Conn, func() bool) {
 					sess := h3.session(t)
 					return webtrans.NewConn(sess, st, true, 0, 0, nil, nil, nil), h3.sessionClosed
 				})
 				h3.shutdown()
 			} else {
-				ops, pan, closed = runReader(c, func(st *memStream) (*webtrans.Conn, func() bool) {
+				ops, pan, closed, consumed = runReader(c, func(st *memStream) (*webtrans.Conn, func() bool) {
 					return webtrans.NewConn(nil, st, true, 0, 0, nil, nil, nil), func() bool { return false }
 				})
 			}
 			if ops == nil {
 				ops = []rdOp{}
 			}
-			rec.Log("rd.case", "raw", ints(c.Stream), "limit", c.Limit, "errAt", c.ErrAt, "pattern", c.Pattern,
+			raw := c.Stream
+			if len(raw) > 4000 { // a long stream is logged by its head only (enough for the reference parser to see the frame that is refused)
+				raw = raw[:64]
+			}
+			rec.Log("rd.case", "raw", ints(raw), "rawLen", len(c.Stream), "consumed", consumed, "limit", c.Limit, "errAt", c.ErrAt, "pattern", c.Pattern,
 				"frag", c.Frag, "ops", ops, "panic", pan, "closed", closed, "session", withSession)
 		}})
 	}
